@@ -131,6 +131,17 @@ def Slot.compact (s : Slot) : Option Slot :=
   | none => none
   | some (a', j) => if j < 0 then none else some { count := j.toNat / 2, arr := a' ++ s.arr.drop (2 * s.count) }
 
+/-- the interval `transferCapture` records for a balancing group `(?<cap-uncap>…)`: `[start, end)` is
+    the group's own text (already ordered), `[start2, end2)` the capture being cancelled; the result is
+    `(start, length)` as passed to `addMatch`. -/
+def transferInterval (start end_ start2 end2 : Int) : Int × Int :=
+  if start ≥ end2 then (end2, start - end2)
+  else if end_ ≤ start2 then (end_, start2 - end_)
+  else
+    let e := if end_ > end2 then end2 else end_
+    let s := if start2 > start then start2 else start
+    (s, e - s)
+
 /-- `Match` as the runner sees it while matching -/
 structure Builder where
   slots : List Slot
